@@ -310,18 +310,38 @@ def addEdges (s : Sys π ν) (cidx : Nat) : List Nat → Sys π ν
   | [] => s
   | p :: ps => addEdges (s.addEdge p cidx) cidx ps
 
+/-- exception raised while evaluating `_get_index(p)` for every entry of every `pnames` list in `d` -/
+def refsErr (s : Sys π ν) : List (Nat × List String) → Option String
+  | [] => none
+  | (_, pl) :: t =>
+    match s.resolveAll pl with
+    | .error e => some e
+    | .ok _ => refsErr s t
+
+/-- `_get_index(p) == eidx` (evaluated before the edit; call sites have checked that it does not raise) -/
+def refersTo (s : Sys π ν) (eidx : Nat) (p : String) : Bool :=
+  match s.getIndex p with
+  | .ok (some i) => decide (i = eidx)
+  | _ => false
+
 def addComp (s : Sys π ν) (parent : ParentArg) (c : π) (group rail : String) : Res π ν :=
   -- check that parent(s) are valid
-  let plist? : Option (List String) :=
+  let plist? : Except String (List String) :=
     match parent with
     | .many ps =>
-      if ¬ ps.Nodup then none
-      else if (kindOfC c).ctype ≠ .PMUX then none
-      else if ps.all s.chkParent then some ps else none
-    | .one p => if s.chkParent p then some [p] else none
+      if ps = [] then .error "ValueError"
+      else if ¬ ps.Nodup then .error "ValueError"
+      else if (kindOfC c).ctype ≠ .PMUX then .error "ValueError"
+      else if !ps.all s.chkParent then .error "ValueError"
+      else
+        -- `len(parent) > len(set([self._get_index(p) for p in parent]))`
+        match s.resolveAll ps with
+        | .error e => .error e
+        | .ok rl => if ¬ rl.Nodup then .error "ValueError" else .ok ps
+    | .one p => if s.chkParent p then .ok [p] else .error "ValueError"
   match plist? with
-  | none => fail s "ValueError"
-  | some plist =>
+  | .error e => fail s e
+  | .ok plist =>
     -- check that component name is unique
     if !s.chkName (nameOfC c) rail then fail s "ValueError" else
     -- check that parent(s) allows component type as child
@@ -333,7 +353,7 @@ def addComp (s : Sys π ν) (parent : ParentArg) (c : π) (group rail : String) 
       | some e => fail s e
       | none =>
         match pidx with
-        | [] => fail s "IndexError"          -- `pidx[0]` with `parent=[]`
+        | [] => fail s "IndexError"          -- `pidx[0]` (unreachable: an empty parent list is rejected above)
         | p0 :: prest =>
           let (s1, cidx) := s.addNode c                         -- add_child(pidx[0], comp, None)
           let s2 := { s1 with edges := s1.edges ++ [(p0, cidx)] }
@@ -346,9 +366,30 @@ def addComp (s : Sys π ν) (parent : ParentArg) (c : π) (group rail : String) 
 
 /-! ### `change_comp` -/
 
+/-- `for c in successor_indices(eidx): if not self._g[c]._component_type in comp._child_types: raise` -/
+def kidsScan (s : Sys π ν) (c : π) : List Nat → Option String
+  | [] => none
+  | k :: ks =>
+    match s.payload? k with
+    | none => some "IndexError"
+    | some kc => if !(kindOfC c).acceptsChild (kindOfC kc).ctype then some "ValueError" else kidsScan s c ks
+
 def changeComp (s : Sys π ν) (x : String) (c : π) (group rail : String) : Res π ν :=
   if !s.chkComp x then fail s "ValueError" else
-  if x ≠ nameOfC c ∧ !s.chkName (nameOfC c) rail then fail s "ValueError" else
+  -- name changes: `_chk_name`; name kept: the new rail (unless it is the current one) must be unused
+  let nameChk : Option String :=
+    if x ≠ nameOfC c then (if !s.chkName (nameOfC c) rail then some "ValueError" else none)
+    else if rail = "" then none
+    else
+      match dget s.rails x with
+      | none => some "KeyError"
+      | some cur =>
+        if rail = cur then none
+        else if rail = x then some "ValueError"
+        else if rail ∈ dkeys s.nodes ∨ rail ∈ dvals s.rails then some "ValueError" else none
+  match nameChk with
+  | some e => fail s e
+  | none =>
   match s.getIndex x with
   | .error e => fail s e
   | .ok none => fail s "OverflowError"
@@ -358,6 +399,9 @@ def changeComp (s : Sys π ν) (x : String) (c : π) (group rail : String) : Res
     | some old =>
       if (kindOfC old).ctype = .SOURCE ∧ kindOfC c ≠ .source then fail s "ValueError" else
       if (kindOfC old).ctype = .PMUX ∧ kindOfC c ≠ .pmux then fail s "ValueError" else
+      -- can only have one pmux (`_get_pmux() != -1`)
+      if (kindOfC c).ctype = .PMUX ∧ (kindOfC old).ctype ≠ .PMUX ∧
+          (s.comps.any fun p => decide (kindOfC p.2 = .pmux)) = true then fail s "ValueError" else
       match s.parentsErr with
       | some e => fail s e
       | none =>
@@ -375,6 +419,14 @@ def changeComp (s : Sys π ν) (x : String) (c : π) (group rail : String) : Res
           match chk with
           | some e => fail s e
           | none =>
+            -- the new component must accept the existing children
+            match s.kidsScan c (s.succs eidx) with
+            | some e => fail s e
+            | none =>
+            -- refs: every recorded input name (all of `pnames`) that resolves to this component
+            match s.refsErr s.pnames with
+            | some e => fail s e
+            | none =>
             let s1 := s.setPayload eidx c
             -- `del nodes[name]` cannot fail (`_chk_comp`); the three others can
             let s2 := { s1 with nodes := dset (ddel s1.nodes x) (nameOfC c) eidx }
@@ -383,7 +435,10 @@ def changeComp (s : Sys π ν) (x : String) (c : π) (group rail : String) : Res
             if x ∉ dkeys s3.groups then fail s3 "KeyError" else
             let s4 := { s3 with groups := dset (ddel s3.groups x) (nameOfC c) group }
             if x ∉ dkeys s4.rails then fail s4 "KeyError" else
-            ({ s4 with rails := dset (ddel s4.rails x) (nameOfC c) (effRail c rail) }, .ok)
+            let s5 := { s4 with rails := dset (ddel s4.rails x) (nameOfC c) (effRail c rail) }
+            -- `for k, i in refs: pnames[k][i] = comp name`
+            ({ s5 with pnames := s5.pnames.map fun (kp : Nat × List String) =>
+                  (kp.1, kp.2.map fun p => if s.refersTo eidx p then nameOfC c else p) }, .ok)
 
 /-! ### `del_comp` -/
 
@@ -406,11 +461,45 @@ def relink (s : Sys π ν) (p0 : Nat) : List Nat → Res π ν
     else if p0 = c ∨ p0 ∈ s.descendants c then fail s "DAGWouldCycle"
     else relink (s.addEdge p0 c) p0 cs
 
+/-- exception of `refs = [(c, i) for c in childs[eidx] for i, p in enumerate(pnames[c]) if _get_index(p) == eidx]` -/
+def childRefsErr (s : Sys π ν) : List Nat → Option String
+  | [] => none
+  | c :: cs =>
+    match dget s.pnames c with
+    | none => some "KeyError"
+    | some pl =>
+      match s.resolveAll pl with
+      | .error e => some e
+      | .ok _ => childRefsErr s cs
+
+/-- `seen, plist = [], []; for p in pnames[c]: if _get_index(p) not in seen: seen += [..]; plist += [p]` -/
+def dedupe (s : Sys π ν) : List String → List (Option Nat) → Except String (List String)
+  | [], _ => .ok []
+  | p :: ps, seen =>
+    match s.getIndex p with
+    | .error e => .error e
+    | .ok r =>
+      if r ∈ seen then dedupe s ps seen
+      else
+        match dedupe s ps (seen ++ [r]) with
+        | .error e => .error e
+        | .ok l => .ok (p :: l)
+
+/-- the final `for c in childs[eidx]:` loop that de-duplicates each child's recorded inputs -/
+def dedupeChilds (s : Sys π ν) : List Nat → Res π ν
+  | [] => (s, .ok)
+  | c :: cs =>
+    match dget s.pnames c with
+    | none => fail s "KeyError"
+    | some pl =>
+      match s.dedupe pl [] with
+      | .error e => fail s e
+      | .ok pl' => dedupeChilds { s with pnames := dset s.pnames c pl' } cs
+
 def delComp (s : Sys π ν) (x : String) (delChilds : Bool) : Res π ν :=
-  match s.getIndex x with
-  | .error e => fail s e
-  | .ok none => fail s "ValueError"
-  | .ok (some eidx) =>
+  match dget s.nodes x with
+  | none => fail s "ValueError"
+  | some eidx =>
     match s.parentsErr with
     | some e => fail s e
     | none =>
@@ -421,15 +510,29 @@ def delComp (s : Sys π ν) (x : String) (delChilds : Bool) : Res π ν :=
         if pe = [] ∧ !delChilds then fail s "ValueError" else
         if pe = [] ∧ s.numSources < 2 then fail s "ValueError" else
         let childs := s.succs eidx
+        -- refs: recorded input names of the children that resolve to this component
+        match (if !delChilds then s.childRefsErr childs else none) with
+        | some e => fail s e
+        | none =>
         let r1 : Res π ν := if delChilds then s.delDescendants (s.descendants eidx) else (s, .ok)
         andThen r1 fun s1 =>
           andThen ((s1.removeNode eidx).delRegs x) fun s2 =>
             if delChilds then (s2, .ok) else
             match childs, pe with
             | [], _ => (s2, .ok)
-            | _ :: _, some p0 :: _ => s2.relink p0 childs
-            | _ :: _, none :: _ => fail s2 "OverflowError"      -- add_edge(-1, c)
             | _ :: _, [] => (s2, .ok)                            -- unreachable: `pe = []` was rejected above
+            | _ :: _, none :: _ => fail s2 "OverflowError"      -- add_edge(-1, c)
+            | _ :: _, some p0 :: _ =>
+              andThen (s2.relink p0 childs) fun s3 =>
+                -- pname = self._g[parents[eidx][0]]._params["name"]
+                match s3.payload? p0 with
+                | none => fail s3 "IndexError"
+                | some pc0 =>
+                  -- `for c, i in refs: pnames[c][i] = pname`
+                  let s4 := { s3 with pnames := s3.pnames.map fun (kp : Nat × List String) =>
+                      if kp.1 ∈ childs then (kp.1, kp.2.map fun p => if s.refersTo eidx p then nameOfC pc0 else p)
+                      else kp }
+                  s4.dedupeChilds childs
 
 /-! ### `set_sys_phases`, `set_comp_phases` -/
 
@@ -439,10 +542,9 @@ def setSysPhases (s : Sys π ν) (ph : List (String × ν)) : Res π ν :=
   ({ s with phases := ph }, .ok)
 
 def setCompPhases (s : Sys π ν) (x : String) (pc : PConfArg ν) : Res π ν :=
-  match s.getIndex x with
-  | .error e => fail s e
-  | .ok none => fail s "ValueError"
-  | .ok (some cidx) =>
+  match dget s.nodes x with
+  | none => fail s "ValueError"
+  | some cidx =>
     match pc with
     | .bad => fail s "ValueError"
     | .conf conf =>
@@ -457,6 +559,7 @@ def setCompPhases (s : Sys π ν) (x : String) (pc : PConfArg ν) : Res π ν :=
 /-- `System(name, source, group=, rail=)`; `none`: `ValueError`, no object -/
 def init (name : String) (src : π) (group rail : String) : Option (Sys π ν) :=
   if kindOfC src ≠ .source then none else
+  if rail ≠ "" ∧ rail = nameOfC src then none else
   some { name := name, comps := [(0, src)], edges := [], free := [], next := 1,
          nodes := [(nameOfC src, 0)], phaseConf := [(nameOfC src, .table [])],
          groups := [(nameOfC src, group)], rails := [(nameOfC src, rail)],
